@@ -767,6 +767,7 @@ func runC12(c *Ctx) {
 	ruleNoStrayGoroutine(c, p, r, "C12.no-stray-goroutine")
 	ruleChannelHandoff(c, p, r, "C12.handoff")
 	rulePoolCtorShared(c, p, "C12.ctor-shared")
+	ruleNoGlobalToggles(c, p, "C12.global-toggles")
 
 	// ---- C12.globals
 	rule = "C12.globals"
@@ -1075,4 +1076,44 @@ func rulePoolCtorShared(c *Ctx, p *core.Program, rule string) {
 	}
 	c.R.Count("pool resource constructors", n)
 	c.R.Floor(rule, cfg, n, 1)
+}
+
+// ruleNoGlobalToggles (C12): the library does not flip process-wide switches of its dependencies.
+func ruleNoGlobalToggles(c *Ctx, p *core.Program, rule string) {
+	c.R.Rule(rule, "no function of the library calls one of the enumerated process-wide setters of its dependencies and of the standard library (google/uuid EnableRandPool / DisableRandPool / SetRand / SetNodeID / SetNodeInterface / SetClockSequence, math/rand Seed, os Setenv / Unsetenv, log SetOutput / SetFlags / SetPrefix, zap ReplaceGlobals, otel SetTracerProvider / SetMeterProvider / SetTextMapPropagator): they write unsynchronised package-level state that other goroutines of the process read - uuid.EnableRandPool() in Connect races with uuid.New() in every concurrent Do and with every other dial of a pool")
+	cfg := p.Cfg.Name
+	deny := map[string]map[string]bool{
+		"github.com/google/uuid":   {"EnableRandPool": true, "DisableRandPool": true, "SetRand": true, "SetNodeID": true, "SetNodeInterface": true, "SetClockSequence": true},
+		"math/rand":                {"Seed": true},
+		"os":                       {"Setenv": true, "Unsetenv": true, "Clearenv": true},
+		"log":                      {"SetOutput": true, "SetFlags": true, "SetPrefix": true},
+		"go.uber.org/zap":          {"ReplaceGlobals": true, "RedirectStdLog": true},
+		"go.opentelemetry.io/otel": {"SetTracerProvider": true, "SetMeterProvider": true, "SetTextMapPropagator": true, "SetErrorHandler": true, "SetLogger": true},
+	}
+	n := 0
+	bad := false
+	for _, fn := range p.Funcs() {
+		if pkgOf(fn) == nil || fn.Blocks == nil {
+			continue
+		}
+		for _, call := range core.Calls(fn) {
+			n++
+			f := core.CalleeFunc(call)
+			if f == nil || f.Pkg() == nil {
+				continue
+			}
+			if sig, ok := f.Type().(*types.Signature); ok && sig.Recv() != nil {
+				continue
+			}
+			if deny[f.Pkg().Path()][f.Name()] {
+				bad = true
+				c.R.Bad(rule, core.CallKey(fn, call), cfg, p.Pos(call.Pos()), sprintf("%s.%s writes process-wide state of the package without synchronisation: concurrent clients (and every other user of that package in the process) race with it", f.Pkg().Name(), f.Name()))
+			}
+		}
+	}
+	if !bad {
+		c.R.Ok(rule, "library", cfg, "", sprintf("%d calls examined, none is an enumerated process-wide setter", n))
+	}
+	c.R.Count("calls examined for process-wide setters", n)
+	c.R.Floor(rule, cfg, n, 1000)
 }
